@@ -14,6 +14,7 @@
 #include <libcellml>
 
 #include <algorithm>
+#include <chrono>
 #include <cstring>
 #include <functional>
 #include <sys/wait.h>
@@ -307,9 +308,9 @@ CaseData generate(Src &src)
     CaseData cd;
     // ---- plan (drawn first so that short tapes still give every feature)
     const size_t nOps = 2 + src.below(11);
-    cd.probe = static_cast<int>(nOps - 1 - src.below(nOps - 1));
+    cd.probe = static_cast<int>(nOps - 1 - (src.flip(40) ? src.below(nOps - 1) : 0)); // mostly the last call, never the first
     Svc probeSvc = pickSvc(src);
-    const bool resetBias = src.flip(35); // the call before the probe is the same service on an input that yields issues
+    const bool resetBias = cd.probe >= 2 && src.flip(35); // the call before the probe is the same service on an input that yields issues
     PoolPlan pp;
     const size_t nDocs = 1 + src.below(3), nModels = 1 + src.below(3);
     pp.forest = src.flip(50);
@@ -1493,6 +1494,12 @@ void run(Src &src, Case &c)
     }
     c.cls("input:" + inputKind);
     c.nontrivial = differentBefore && inputRich;
+    if (inputRich) {
+        c.cls("probe-input-has-math-or-imports");
+    }
+    if (differentBefore) {
+        c.cls("different-service-before-probe");
+    }
     for (const auto &o : cd.ops) {
         c.cls(std::string("svc:") + kShort[o.svc]);
     }
@@ -1502,7 +1509,10 @@ void run(Src &src, Case &c)
 
     Judge j {cd, c, {}, {}, {}};
     std::string sf, sh;
+    auto t0 = std::chrono::steady_clock::now();
     int rf = runChild(cd, false, sf);
+    auto t1 = std::chrono::steady_clock::now();
+    c.count("ms:run-F", static_cast<long>(std::chrono::duration_cast<std::chrono::milliseconds>(t1 - t0).count()));
     parseStream(sf, j.F);
     if (rf != 0 || j.F.ended.count("F") == 0) {
         std::string at = j.F.lastBegin;
@@ -1511,6 +1521,7 @@ void run(Src &src, Case &c)
         return;
     }
     int rh = runChild(cd, true, sh);
+    c.count("ms:run-H+N", static_cast<long>(std::chrono::duration_cast<std::chrono::milliseconds>(std::chrono::steady_clock::now() - t1).count()));
     parseStream(sh, j.H);
     if (rh != 0 || j.H.ended.count("H") == 0 || j.H.ended.count("N") == 0 || j.H.nDied) {
         std::string at = j.H.lastBegin;
